@@ -5,6 +5,7 @@ import (
 	"errors"
 	"fmt"
 	"reflect"
+	"strings"
 
 	json "github.com/go-json-experiment/json"
 	"github.com/go-json-experiment/json/jsontext"
@@ -105,8 +106,8 @@ type ArshalMarshal struct {
 }
 
 var badBytePayloads = []string{gen.WideObject(70, 68, 0), gen.WideObject(80, 66, 0), gen.WideObject(30, 28, 40), "", " ", "nul", "{", "[1,]", "1 2", "{\"a\":1,\"a\":2}", "\"\xff\"", "\"\\ud800\"", "01", "[}", "\"unterminated", "{\"a\":1}}", "\x00", "[1] x", "{\"a\":{\"b\":1,\"b\":2}}"}
-var okPayloads = []string{gen.WideObject(70, -1, 0), gen.WideObject(30, -1, 40), "", "null", "\"\"", "{}", "[]", "\"\\\"\"", "0", "[1,{\"a\":null}]", " {\"x\" : [ ] } ", "\"text\"", "{\"a\":1,\"b\":{\"c\":[true]}}"}
-var textPayloads = []string{"", "t", "key", "a\"b", "\u2028", "<&>", "long_text_long_text_long_text_long_text_long_text_long_text_long_text"}
+var okPayloads = []string{gen.WideObject(70, -1, 0), gen.WideObject(30, -1, 40), "", "null", "\"\"", "{}", "[]", "\"\\\"\"", "0", "[1,{\"a\":null}]", " {\"x\" : [ ] } ", "\"text\"", "{\"a\":1,\"b\":{\"c\":[true]}}", "\"raw \u2028 and \u2029 and <&> kept as they are\"", "[\"\u2028\",{\"\u2029k\":\"\\u2028\"}]"}
+var textPayloads = []string{"", "t", "key", "a\"b", "\u2028", "<&>", "long_text_long_text_long_text_long_text_long_text_long_text_long_text", strings.Repeat("K", 4500), strings.Repeat("é", 2100)}
 var badTextPayloads = []string{"\xff", "ok\x80", "\xed\xa0\x80"}
 
 func (sc *ArshalMarshal) plan(t *core.Tape, env *Env) *MarshalPlan {
